@@ -1143,6 +1143,48 @@ pub fn shared_requirement(rng: &mut Rng) -> (World, ProblemSpec) {
     (w, ProblemSpec { requirements, constraints: vec![], soft: vec![] })
 }
 
+/// Version-set, union and string ids are opaque 32-bit handles that the solver only ever uses as map keys (unlike name
+/// and solvable ids, which index vectors): providers pack information into them (`package << 24 | mask`) or hand out
+/// hashes. This spreads them over the whole `u32` range, including values with the top bit set and `u32::MAX`.
+pub fn huge_handle_ids(rng: &mut Rng, w: &mut World, problems: &mut [ProblemSpec]) {
+    let spread = |rng: &mut Rng, ids: Vec<u32>| -> BTreeMap<u32, u32> {
+        let mut used: BTreeSet<u32> = BTreeSet::new();
+        let mut m = BTreeMap::new();
+        for (k, id) in ids.into_iter().enumerate() {
+            let mut t = match rng.below(6) {
+                0 => u32::MAX - 200_000 - k as u32,
+                1 => (1u32 << 31) + rng.below(1 << 16) as u32,
+                2 => (1u32 << 31) - 1 - rng.below(64) as u32,
+                3 => ((rng.below(200) as u32) << 24) | rng.below(1 << 12) as u32,
+                4 => (rng.next_u64() as u32).min(u32::MAX - 200_000),
+                _ => rng.below(512) as u32,
+            };
+            while !used.insert(t) {
+                t = t.wrapping_add(0x9E37_79B9);
+            }
+            m.insert(id, t);
+        }
+        m
+    };
+    let names: BTreeMap<u32, u32> = w.packages.keys().map(|k| (*k, *k)).collect();
+    let solv: BTreeMap<u32, u32> = w.solvables.keys().map(|k| (*k, *k)).collect();
+    let mv = spread(rng, w.version_sets.keys().copied().collect());
+    let mu = spread(rng, w.unions.keys().copied().collect());
+    let mut strs: BTreeSet<u32> = BTreeSet::new();
+    for p in w.packages.values() {
+        for (_, r) in &p.excluded {
+            strs.insert(*r);
+        }
+    }
+    for s in w.solvables.values() {
+        if let Deps::Unknown(r) = s.deps {
+            strs.insert(r);
+        }
+    }
+    let mt = spread(rng, strs.into_iter().collect());
+    apply_maps(w, problems, &names, &solv, &mv, &mu, &mt);
+}
+
 /// Wide fan-out family: a solvable (the root, or a single solvable the root requires) with `width` requirements on
 /// distinct packages (futures combinators and request budgets change behaviour beyond a few dozen members), plus
 /// optionally one package with many hinted candidates and a union with many members.
